@@ -123,6 +123,10 @@ fn direct_segs(tier: Tier) -> Vec<(String, DirectSeg, u64)> {
         v.push((format!("direct-S{n}-gens<=3"), DirectSeg { n, kmax: 3, kmin_only: None, extra: 2 }, subset_count(m, 3)));
     }
     v.push(("direct-S5-gens<=2".into(), DirectSeg { n: 5, kmax: 2, kmin_only: None, extra: if tier == Tier::Thorough { 1 } else { 0 } }, subset_count(120, 2)));
+    if tier == Tier::Quick {
+        // add_set on 5 slots (the stabilizer chain has depth > 3 there): every group with <= 1 generator grown by every single permutation
+        v.push(("direct-S5-gens<=1-add_set".into(), DirectSeg { n: 5, kmax: 1, kmin_only: None, extra: 1 }, subset_count(120, 1)));
+    }
     v.push(("direct-S6-gens<=1".into(), DirectSeg { n: 6, kmax: 1, kmin_only: None, extra: if tier == Tier::Thorough { 1 } else { 0 } }, subset_count(720, 1)));
     if tier == Tier::Thorough {
         v.push(("direct-S6-gens=2".into(), DirectSeg { n: 6, kmax: 2, kmin_only: Some(2), extra: 0 }, binom(720, 2)));
@@ -323,7 +327,7 @@ impl GroupProp {
                                 let cnt = g2.count();
                                 if cnt != want.len() {
                                     fails.push(("add_set-result".into(), ectx.clone(), format!("count after add_set {cnt}, closure {}", want.len())));
-                                } else if n <= 4 {
+                                } else if n <= 4 || (n == 5 && gens2.len() <= 1) {
                                     for p in &all {
                                         if g2.contains(&to_slotmap(p, &sl)) != want.contains(p) {
                                             fails.push(("add_set-result".into(), ectx.clone(), format!("membership of {} wrong after add_set", show_p(p))));
